@@ -3,7 +3,7 @@
   (lean/GojaModel/Generated/C17_Index.lean, rewritten on every run) equal the ones the model and its
   theorems use.  A change of the Go logic changes the generated defs and breaks one of these equalities.
 -/
-import GojaModel.C17.Model
+import GojaModel.C17.Overlap
 import GojaModel.Generated.C17_Index
 
 namespace GojaModel.C17.Tie
@@ -50,5 +50,47 @@ theorem cwCopy_tie (offset to from_ count es : Nat) :
   refine ⟨by simp, by simp, ?_⟩
   simp only [Int.natCast_mul, Int.add_mul]
   omega
+
+/-! ### `set` between typed arrays of different element types: pointer positions, direction test, split index, loops -/
+
+/-- the byte positions the pointer comparison works on are the ones `setTA_diffKind_bytes_eq_goja` uses:
+source element 0 at `src.offset*srcES`, target element 0 at `(ta.offset+targetOffset)*taES` (seeded mutation C17-m4
+drops `targetOffset` here), source end `srcLen*srcES` further. -/
+theorem setPositions_tie (srcOffset srcES taOffset targetOffset taES srcLen : Nat) :
+    Generated.C17.setCurSrcIdx srcOffset srcES = ((srcOffset * srcES : Nat) : Int) ∧
+    Generated.C17.setCurDstIdx taOffset targetOffset taES = (((taOffset + targetOffset) * taES : Nat) : Int) ∧
+    Generated.C17.setSrcBytes srcLen srcES = ((srcLen * srcES : Nat) : Int) := by
+  simp [Generated.C17.setCurSrcIdx, Generated.C17.setCurDstIdx, Generated.C17.setSrcBytes]
+
+/-- same element size: goja loops ascending exactly when `setOrderSame` does -/
+theorem setFwdSame_tie (srcLo dstLo n es : Nat) :
+    (Generated.C17.setFwdSame dstLo srcLo ((srcLo : Int) + ((n * es : Nat) : Int)) = true) ↔
+      (dstLo ≤ srcLo ∨ dstLo ≥ srcLo + n * es) := by
+  simp only [Generated.C17.setFwdSame, Bool.or_eq_true, decide_eq_true_eq]
+  omega
+
+/-- different element sizes: goja's split index is `splitIndex` (truncating quotient of these two numbers, clamped) -/
+theorem setSplit_tie (srcLo dstLo sES dES n : Nat) :
+    splitIndex srcLo dstLo sES dES n =
+      (let q := Int.tdiv (Generated.C17.setSplitNum dstLo srcLo) (Generated.C17.setSplitDen sES dES)
+       if q < 0 then 0 else if q > (n : Int) then n else q.toNat) ∧
+    Generated.C17.setSplitClamp = "if x < 0 { x = 0 } else if x > srcLen { x = srcLen }" := by
+  exact ⟨rfl, by decide⟩
+
+/-- the six loops: ascending / descending for equal sizes (`setOrderSame`), `[x, n)` ascending then `[0, x)` descending for a
+smaller target, `[0, x)` ascending then `[x, n)` descending for a larger one (`setOrderDiff`) -/
+theorem setLoops_tie : Generated.C17.setLoops =
+    ["i := 0; i < srcLen; i++", "i := srcLen - 1; i >= 0; i--",
+     "i := x; i < srcLen; i++", "i := x - 1; i >= 0; i--",
+     "i := 0; i < x; i++", "i := srcLen - 1; i >= x; i--"] := by decide
+
+/-! ### `typedArraySortCtx`: the protocol `sortCall` models -/
+
+theorem sortCtx_tie :
+    Generated.C17.sortCheckCond = "!ctx.detached && ctx.needValidate" ∧
+    Generated.C17.sortCheckBody = ["ctx.detached = !ctx.ta.viewedArrayBuf.ensureNotDetached(false)", "ctx.needValidate = false"] ∧
+    Generated.C17.sortLessPrologue = ["ctx.checkDetached()", "if ctx.detached { return false }"] ∧
+    Generated.C17.sortSwapPrologue = ["ctx.checkDetached()", "if ctx.detached { return }"] ∧
+    Generated.C17.sortLessRevalidatesAfterCompare = true := by decide
 
 end GojaModel.C17.Tie
